@@ -49,7 +49,8 @@ class Interp:
     def call_repo(self, qualname, args, kwargs, use_contract=True):
         eng = self.eng
         con = eng.contracts.get(qualname)
-        usable = (con is not None and use_contract and qualname not in self.force_inline
+        usable = (con is not None and use_contract and con.use_at_calls
+                  and qualname not in self.force_inline
                   and eng.established.get(qualname, True) and con.spec is not None)
         if usable:
             self.ctx.cover.add(("call", qualname))
